@@ -572,6 +572,41 @@ def keep_lists(fn):
     return res
 
 
+def meta_copy_kind(fn, var, where):
+    """how `<var>._meta` of the new object is produced: it must be `None` for `None` and a *new* dict otherwise.
+    Recognised: `if self._meta is None: v._meta = None  else: v._meta = self._meta.copy()` (statement or conditional
+    expression, also `dict(self._meta)` / `{**self._meta}`).  Anything else (e.g. `self._meta and self._meta.copy()`, which
+    hands out the source's own dict when it is empty) is not guessed."""
+    def fresh(v):
+        src = ast.unparse(v)
+        return src in ('self._meta.copy()', 'dict(self._meta)', '{**self._meta}', 'copy(self._meta)')
+
+    def is_none(v):
+        return isinstance(v, ast.Constant) and v.value is None
+
+    found = False
+    for node in ast.walk(fn):
+        if isinstance(node, ast.Assign) and any(isinstance(t, ast.Attribute) and t.attr == '_meta' and isinstance(t.value, ast.Name)
+                                                and t.value.id == var for t in node.targets):
+            found = True
+            v = node.value
+            ok = False
+            if isinstance(v, ast.IfExp) and ast.unparse(v.test) in ('self._meta is None', 'self._meta is not None'):
+                a, b = (v.body, v.orelse) if 'not' not in ast.unparse(v.test) else (v.orelse, v.body)
+                ok = is_none(a) and fresh(b)
+            elif is_none(v) or fresh(v):
+                # must sit under the matching branch of `if self._meta is None`
+                ok = any(isinstance(i, ast.If) and ast.unparse(i.test) == 'self._meta is None'
+                         and any(x is node for x in ast.walk(i)) for i in ast.walk(fn))
+                if var == 'sub':
+                    ok = ok or is_none(v)     # substructure starts without metadata
+            if not ok:
+                raise TranslatorError(f'{where}: `{ast.unparse(node)}` is not a recognised way to give the copy its own metadata')
+    if not found:
+        raise TranslatorError(f'{where}: the new object gets no _meta')
+    return True
+
+
 def bulk_sites(C):
     """every self.flush_cache(...) call of the package outside the modelled methods: (file, function, flags)."""
     sites = []
@@ -657,7 +692,16 @@ def extract():
     sub_calls = [n.func.attr for n in ast.walk(C.defs[('MoleculeContainer', 'substructure')])
                  if isinstance(n, ast.Call) and isinstance(n.func, ast.Attribute) and isinstance(n.func.value, ast.Name)
                  and n.func.value.id == 'sub']
-    meta_copied = '_meta.copy()' in ast.unparse(C.defs[('MoleculeContainer', 'copy')])
+    meta_copied = meta_copy_kind(C.defs[('MoleculeContainer', 'copy')], 'copy', 'MoleculeContainer.copy')
+    import chython.containers.reaction as rmod
+    rtree = ast.parse(Path(rmod.__file__).read_text())
+    rcopy = [f for c in ast.walk(rtree) if isinstance(c, ast.ClassDef) and c.name == 'ReactionContainer'
+             for f in c.body if isinstance(f, ast.FunctionDef) and f.name == 'copy']
+    if not rcopy:
+        raise TranslatorError('ReactionContainer.copy not found')
+    reaction_meta_copied = meta_copy_kind(rcopy[0], 'copy', 'ReactionContainer.copy')
+    rsrc = ast.unparse(rcopy[0])
+    reaction_mols_copied = rsrc.count('x.copy()') >= 3 or rsrc.count('.copy(') >= 4
 
     # Element.copy: does the copy get the same Vector object?
     import chython.periodictable.base.element as elmod
@@ -681,7 +725,8 @@ def extract():
     return dict(cached=cached, key_reads=key_reads, key_raw=key_raw, fns=fns, mc_flush=mc_flush, mc_copy=mc_copy,
                 init_slots=init_slots, copy_slots=copy_slots, sub_slots=sub_slots, atoms_deep=atoms_deep,
                 bonds_deep=bonds_deep, sub_atoms_deep=sub_atoms_deep, sub_bonds_deep=sub_bonds_deep, sub_calls=sub_calls,
-                meta_copied=meta_copied, shares_xy=shares, ecopy_slots=ecopy_slots, bulk=bulk_sites(C))
+                meta_copied=meta_copied, reaction_meta_copied=reaction_meta_copied,
+                reaction_mols_copied=reaction_mols_copied, shares_xy=shares, ecopy_slots=ecopy_slots, bulk=bulk_sites(C))
 
 
 def render(d, data_only_namespace=None):
@@ -755,6 +800,8 @@ def render(d, data_only_namespace=None):
     w(f'def subAtomsDeep : Bool := {b(d["sub_atoms_deep"])}')
     w(f'def subBondsDeep : Bool := {b(d["sub_bonds_deep"])}')
     w(f'def copyMetaCopied : Bool := {b(d["meta_copied"])}')
+    w(f'def reactionCopyMetaCopied : Bool := {b(d.get("reaction_meta_copied", True))}')
+    w(f'def reactionCopyMoleculesCopied : Bool := {b(d.get("reaction_mols_copied", True))}')
     w(f'def elementCopySharesXY : Bool := {b(d["shares_xy"])}')
     w('')
     w('/-- every other `flush_cache(...)` call site of the package: (file, Class.method, keep_sssr, keep_components) -/')
